@@ -48,5 +48,7 @@ def run(ctx):
     # an object referenced twice is dumped as anchor + alias: the cycle pre-check must let every such (acyclic) document through
     A.r18_1_cycles(ctx, 'R05.14')
     R3.r10_8_each_class_once(ctx, 'R05.15')
+    from . import alias_rules as A_
+    A_.r05_17_dump_cycle_walk(ctx, 'R05.17')
     from . import memo_rules as M
     M.memo_sound(ctx, 'R05.M')
